@@ -544,17 +544,24 @@ impl<'a> Interpreter<'a> {
                     }
 
                     let mut working = String::new();
+                    // a segment that failed makes the string fail as a value (the first one, in
+                    // source order), so that `||`, has() and coalesce() treat it like any operand
+                    let mut failed = None;
                     for seg in segments.into_iter().rev() {
-                        if let CelValue::String(s) = seg {
-                            working.push_str(&s)
-                        } else {
-                            return Err(CelError::Runtime(
-                                "Expected string from format string specifier".to_string(),
-                            ));
+                        match seg {
+                            CelValue::String(s) => working.push_str(&s),
+                            err @ CelValue::Err(_) => {
+                                failed.get_or_insert(err);
+                            }
+                            _ => {
+                                return Err(CelError::Runtime(
+                                    "Expected string from format string specifier".to_string(),
+                                ))
+                            }
                         }
                     }
 
-                    stack.push_val(CelValue::String(working));
+                    stack.push_val(failed.unwrap_or(CelValue::String(working)));
                 }
             };
         }
